@@ -23,6 +23,7 @@ import (
 	"github.com/hyperledger/aries-framework-go/pkg/secretlock/noop"
 	"github.com/hyperledger/aries-framework-go/pkg/wallet"
 	kmsapi "github.com/hyperledger/aries-framework-go/spi/kms"
+	spi "github.com/hyperledger/aries-framework-go/spi/storage"
 
 	"verifharness/hx"
 )
@@ -677,6 +678,396 @@ func genMsg(r *hx.Rng, c *Case, g, n int) {
 	}
 }
 
+// ---------- provider level: OpenStore / SetStoreConfig / GetStoreConfig / GetOpenStores + operations through handles ----------
+
+type provInst struct {
+	top     spi.Provider
+	handles [16]map[int]spi.Store // per goroutine: name -> the handle ITS OpenStore returned
+
+	mu    sync.Mutex
+	names map[spi.Store]int // every handle any OpenStore returned (to name the stores GetOpenStores returns)
+}
+
+func newProvInst(c Case, ct *ctl) (Inst, error) {
+	p, err := buildProvider(c.Stack, ct)
+	if err != nil {
+		return nil, err
+	}
+
+	w := &provInst{top: p, names: map[spi.Store]int{}}
+	for i := range w.handles {
+		w.handles[i] = map[int]spi.Store{}
+	}
+
+	return w, nil
+}
+
+func (w *provInst) Close() { _ = w.top.Close() }
+
+func provName(n int, upper bool) string {
+	if upper {
+		return fmt.Sprintf("ST%d", n)
+	}
+
+	return fmt.Sprintf("st%d", n)
+}
+
+func perr(err error) Out {
+	switch {
+	case err == nil:
+		return Out{Kind: "done"}
+	case errors.Is(err, spi.ErrStoreNotFound):
+		return Out{Kind: "nostore", Err: err.Error()}
+	case errors.Is(err, spi.ErrDataNotFound):
+		return Out{Kind: "notfound", Err: err.Error()}
+	}
+
+	return Out{Kind: "err", Err: err.Error()}
+}
+
+// handleFor: the handle of goroutine owner-1 for the name (owner 0 = the caller's own), else any handle for it.
+func (w *provInst) handleFor(g, owner, n int) spi.Store {
+	if owner > 0 {
+		g = owner - 1
+	}
+
+	if h := w.handles[g][n]; h != nil {
+		return h
+	}
+
+	w.mu.Lock()
+	defer w.mu.Unlock()
+
+	for h, m := range w.names {
+		if m == n {
+			return h
+		}
+	}
+
+	return nil
+}
+
+func (w *provInst) Exec(g int, o *Op) (out Out) {
+	defer func() {
+		if r := recover(); r != nil {
+			out = Out{Kind: "panic", Err: fmt.Sprint(r)}
+		}
+	}()
+
+	name := provName(o.U, o.K == 9)
+
+	switch o.Kind {
+	case "popen":
+		h, err := w.top.OpenStore(name)
+		if err != nil {
+			return perr(err)
+		}
+
+		w.handles[g][o.U] = h
+
+		w.mu.Lock()
+		w.names[h] = o.U
+		w.mu.Unlock()
+
+		return Out{Kind: "done"}
+	case "psetcfg":
+		tn := make([]string, len(o.Ks))
+		for i, t := range o.Ks {
+			tn[i] = nameStr(t)
+		}
+
+		return perr(w.top.SetStoreConfig(name, spi.StoreConfiguration{TagNames: tn}))
+	case "pgetcfg":
+		cfg, err := w.top.GetStoreConfig(name)
+		if err != nil {
+			return perr(err)
+		}
+
+		ns := make([]int, len(cfg.TagNames))
+		for i, t := range cfg.TagNames {
+			ns[i] = nameNum(t)
+		}
+
+		return Out{Kind: "cfg", Vs: ns}
+	case "pgetopen":
+		open := w.top.GetOpenStores()
+		seen := map[int]bool{}
+
+		for _, s := range open {
+			// the opener registers its handle right after OpenStore returned: wait for it (inside this operation)
+			n, ok := 0, false
+			for try := 0; try < 2000 && !ok; try++ {
+				w.mu.Lock()
+				n, ok = w.names[s]
+				w.mu.Unlock()
+
+				if !ok {
+					time.Sleep(500 * time.Microsecond)
+				}
+			}
+
+			if !ok {
+				return Out{Kind: "unknown", Err: "GetOpenStores returned a store that no OpenStore call returned"}
+			}
+
+			seen[n] = true
+		}
+
+		ns := []int{}
+		for n := range seen {
+			ns = append(ns, n)
+		}
+
+		sort.Ints(ns)
+
+		if len(ns) != len(open) {
+			return Out{Kind: "err", Err: fmt.Sprintf("GetOpenStores returned %d store objects for the names %v", len(open), ns)}
+		}
+
+		return Out{Kind: "open", Vs: ns}
+	case "pput":
+		h := w.handleFor(g, o.ID, o.U)
+		if h == nil {
+			return Out{Kind: "err", Err: "no handle"}
+		}
+
+		return perr(h.Put(keyStr(o.K), valBytes(o.V)))
+	case "pget":
+		h := w.handleFor(g, o.ID, o.U)
+		if h == nil {
+			return Out{Kind: "err", Err: "no handle"}
+		}
+
+		v, err := h.Get(keyStr(o.K))
+		if err != nil {
+			return perr(err)
+		}
+
+		return Out{Kind: "val", V: valNum(v)}
+	}
+
+	return Out{Kind: "err", Err: "unknown op"}
+}
+
+type pstoreState struct {
+	data map[int]int
+	cfg  []int
+}
+
+type provState struct{ m map[int]pstoreState }
+
+func (s *provState) Key() string {
+	ks := make([]int, 0, len(s.m))
+	for k := range s.m {
+		ks = append(ks, k)
+	}
+
+	sort.Ints(ks)
+
+	var b strings.Builder
+
+	for _, k := range ks {
+		ds := make([]int, 0)
+		for d := range s.m[k].data {
+			ds = append(ds, d)
+		}
+
+		sort.Ints(ds)
+		fmt.Fprintf(&b, "%d:%v:", k, s.m[k].cfg)
+
+		for _, d := range ds {
+			fmt.Fprintf(&b, "%d=%d,", d, s.m[k].data[d])
+		}
+
+		b.WriteString(";")
+	}
+
+	return b.String()
+}
+
+func (s *provState) with(n int, f func(st *pstoreState)) *provState {
+	r := &provState{m: map[int]pstoreState{}}
+
+	for k, v := range s.m {
+		d := map[int]int{}
+		for a, b := range v.data {
+			d[a] = b
+		}
+
+		r.m[k] = pstoreState{data: d, cfg: append([]int{}, v.cfg...)}
+	}
+
+	st, ok := r.m[n]
+	if !ok {
+		st = pstoreState{data: map[int]int{}, cfg: []int{}}
+	}
+
+	f(&st)
+	r.m[n] = st
+
+	return r
+}
+
+type provModel struct{}
+
+func (provModel) Init() State { return &provState{m: map[int]pstoreState{}} }
+
+func (provModel) Step(st State, o Op, got Out) (State, bool) {
+	s, _ := st.(*provState)
+	cur, open := s.m[o.U]
+
+	switch o.Kind {
+	case "popen":
+		return s.with(o.U, func(*pstoreState) {}), got.Kind == "done"
+	case "psetcfg":
+		if !open {
+			return s, got.Kind == "nostore"
+		}
+
+		return s.with(o.U, func(x *pstoreState) { x.cfg = append([]int{}, o.Ks...) }), got.Kind == "done"
+	case "pgetcfg":
+		if !open {
+			return s, got.Kind == "nostore"
+		}
+
+		return s, got.Kind == "cfg" && eqInts(got.Vs, cur.cfg)
+	case "pgetopen":
+		ns := []int{}
+		for n := range s.m {
+			ns = append(ns, n)
+		}
+
+		sort.Ints(ns)
+
+		return s, got.Kind == "open" && eqInts(got.Vs, ns)
+	case "pput":
+		if !open {
+			return s, got.Kind == "err"
+		}
+
+		return s.with(o.U, func(x *pstoreState) { x.data[o.K] = o.V }), got.Kind == "done"
+	case "pget":
+		if !open {
+			return s, got.Kind == "err"
+		}
+
+		v, ok := cur.data[o.K]
+		if !ok {
+			return s, got.Kind == "notfound"
+		}
+
+		return s, got.Kind == "val" && got.V == v
+	}
+
+	return s, false
+}
+
+func coqProv(_ Case, h []Ev, w []int) string {
+	items := make([]string, len(h))
+
+	for i, e := range h {
+		var op string
+
+		switch e.Op.Kind {
+		case "popen":
+			op = fmt.Sprintf("POpen %d", e.Op.U)
+		case "psetcfg":
+			op = fmt.Sprintf("PSetCfg %d %s", e.Op.U, coqNs(e.Op.Ks))
+		case "pgetcfg":
+			op = fmt.Sprintf("PGetCfg %d", e.Op.U)
+		case "pgetopen":
+			op = "PGetOpen"
+		case "pput":
+			op = fmt.Sprintf("PStore %d (Put %d %d [])", e.Op.U, e.Op.K, e.Op.V)
+		default:
+			op = fmt.Sprintf("PStore %d (Get %d)", e.Op.U, e.Op.K)
+		}
+
+		isStore := e.Op.Kind == "pput" || e.Op.Kind == "pget"
+
+		out := "PErr"
+
+		switch e.Out.Kind {
+		case "done":
+			out = "PDone"
+			if isStore {
+				out = "POut ODone"
+			}
+		case "nostore":
+			out = "PNoStore"
+		case "notfound":
+			out = "POut ONotFound"
+		case "cfg":
+			out = "PCfg " + coqNs(e.Out.Vs)
+		case "open":
+			out = "POpenSet " + coqNs(e.Out.Vs)
+		case "val":
+			out = fmt.Sprintf("POut (OVal %d)", e.Out.V)
+		}
+
+		items[i] = hrec(op, out, e)
+	}
+
+	return "HProv " + hx.CoqList(items) + " " + coqNats(w)
+}
+
+// restricted: formatting providers keep the configuration in a side store (it shows up in GetOpenStores, and
+// GetStoreConfig before any SetStoreConfig is an error): those two operations are left out for them
+func provRestricted(st Stack) bool {
+	for _, w := range st.Wraps {
+		if w.Kind == "fmt" {
+			return true
+		}
+	}
+
+	return false
+}
+
+func genProv(r *hx.Rng, c *Case, g, n int) {
+	c.Threads = make([][]Op, g)
+	v := 0
+
+	for t := 0; t < g; t++ {
+		first := 1 + r.Intn(2)
+		opened := []int{first}
+		c.Threads[t] = append(c.Threads[t], Op{Kind: "popen", U: first, K: 9 * r.Intn(2)})
+
+		for i := 1; i < n; i++ {
+			v++
+			mine := opened[r.Intn(len(opened))]
+
+			switch x := r.Intn(12); {
+			case x < 2:
+				nn := 1 + r.Intn(2)
+				opened = append(opened, nn)
+				c.Threads[t] = append(c.Threads[t], Op{Kind: "popen", U: nn, K: 9 * r.Intn(2)})
+			case x < 3:
+				c.Threads[t] = append(c.Threads[t], Op{Kind: "psetcfg", U: 1 + r.Intn(2), Ks: []int{1 + r.Intn(2)}})
+			case x < 4 && !provRestricted(c.Stack):
+				c.Threads[t] = append(c.Threads[t], Op{Kind: "pgetcfg", U: 1 + r.Intn(2)})
+			case x < 5 && !provRestricted(c.Stack):
+				c.Threads[t] = append(c.Threads[t], Op{Kind: "pgetopen"})
+			case x < 9:
+				c.Threads[t] = append(c.Threads[t], Op{Kind: "pput", U: mine, K: 1 + r.Intn(2), V: v})
+			default:
+				c.Threads[t] = append(c.Threads[t], Op{Kind: "pget", U: mine, K: 1 + r.Intn(2)})
+			}
+		}
+	}
+}
+
+func provStacks() []Stack {
+	return []Stack{
+		{Raw: true},
+		{Wraps: []Wrap{{Kind: "cached"}}},
+		{Wraps: []Wrap{{Kind: "batched", Limit: 3}}},
+		{Wraps: []Wrap{{Kind: "batched", Limit: 1}}},
+		{Wraps: []Wrap{{Kind: "fmt", Fmt: "b64det"}}},
+		{Wraps: []Wrap{{Kind: "batched", Limit: 2}, {Kind: "cached"}}},
+		{Wraps: []Wrap{{Kind: "cached"}, {Kind: "batched", Limit: 4}}},
+	}
+}
+
 // ---------- mediator inbox (message pickup) ----------
 
 type inboxInst struct {
@@ -1091,6 +1482,7 @@ func components() map[string]*Comp {
 			New:   func(Case, *ctl) (Inst, error) { return &sessInst{m: wallet.NewVerifSessionManager()}, nil },
 			Model: func(Case) Model { return sessModel{} }, Gen: genSess, Coq: coqSess,
 		},
+		"prov":  {Name: "prov", Forced: true, New: newProvInst, Model: func(Case) Model { return provModel{} }, Gen: genProv, Coq: coqProv},
 		"msg":   {Name: "msg", Forced: true, New: newMsgInst, Model: func(Case) Model { return msgModel{} }, Gen: genMsg, Coq: coqMsg},
 		"reg":   {Name: "reg", New: newRegInst, Model: func(Case) Model { return regModel{} }, Gen: genReg, Coq: coqReg},
 		"inbox": {Name: "inbox", Forced: true, New: newInboxInst, Model: func(Case) Model { return inboxModel{} }, Gen: genInbox, Coq: coqInbox},
